@@ -166,39 +166,138 @@ Section Evalt.
     end.
   Proof. reflexivity. Qed.
 
-  Definition node_t (o : nop) (vs : list val) : list call * rs val :=
-    match o with
-    | NCall f kw => call1t F f kw vs
-    | _ => ([], nary F o vs)
+  (* ---- the strict n-ary nodes: Lang's lazy fold (ninit / nstep / nfinish) ---- *)
+  (* the inner fold of evalt as a function of its own *)
+  Fixpoint nfold_t (o : nop) (s : store) (acc : nacc) (l : list expr) : list call * rs nacc :=
+    match l with
+    | [] => ([], Ok acc)
+    | e :: l' =>
+        let (r, v) := evalt F s e in
+        match v with
+        | Err u => (r, Err u)
+        | Ok x =>
+            match nstep o acc x with
+            | None => (r, Err false)
+            | Some acc' => let (r2, res) := nfold_t o s acc' l' in (r ++ r2, res)
+            end
+        end
     end.
 
-  Lemma evalt_strict s o l :
+  Lemma evalt_nary s o l :
     is_lazy o = false ->
     evalt F s (ENary o l) =
-    let (r, vs) := evalt_list F s l in
-    match vs with
+    let (r, a) := nfold_t o s (ninit o) l in
+    match a with
     | Err u => (r, Err u)
-    | Ok vs => let (r2, v) := node_t o vs in (r ++ r2, v)
+    | Ok acc => let (r2, v) := nfinish_t F o acc in (r ++ r2, v)
     end.
   Proof.
     intros Ho.
-    assert (Hgo : (fix go (l : list expr) : list call * rs (list val) :=
-                     match l with
-                     | [] => ([], Ok [])
-                     | a :: l' =>
-                         let (r, v) := evalt F s a in
-                         match v with
-                         | Err u => (r, Err u)
-                         | Ok x => let (r2, vs) := go l' in (r ++ r2, rmap (cons x) vs)
-                         end
-                     end) l = evalt_list F s l).
-    { induction l as [|a l IH]; [reflexivity|]. cbn [evalt_list]. rewrite <- IH. reflexivity. }
-    destruct o; try discriminate; cbn [evalt node_t]; rewrite Hgo;
-      destruct (evalt_list F s l) as [r [vs|u]]; try reflexivity;
-      try (now rewrite app_nil_r).
+    assert (Hgo : forall acc,
+               (fix go (acc : nacc) (l : list expr) : list call * rs nacc :=
+                  match l with
+                  | [] => ([], Ok acc)
+                  | e :: l' =>
+                      let (r, v) := evalt F s e in
+                      match v with
+                      | Err u => (r, Err u)
+                      | Ok x =>
+                          match nstep o acc x with
+                          | None => (r, Err false)
+                          | Some acc' => let (r2, res) := go acc' l' in (r ++ r2, res)
+                          end
+                      end
+                  end) acc l = nfold_t o s acc l).
+    { induction l as [|a l IH]; intros acc; [reflexivity|]. cbn [nfold_t].
+      destruct (evalt F s a) as [r [x|u]]; [|reflexivity]. destruct (nstep o acc x); [|reflexivity].
+      now rewrite IH. }
+    destruct o; try discriminate; cbn [evalt]; rewrite Hgo; reflexivity.
+  Qed.
+
+  (* the fold on values *)
+  Fixpoint steps (o : nop) (acc : nacc) (vs : list val) : option nacc :=
+    match vs with
+    | [] => Some acc
+    | v :: r => match nstep o acc v with Some a => steps o a r | None => None end
+    end.
+
+  Lemma nfold_ok s o : forall l acc L a,
+    nfold_t o s acc l = (L, Ok a) -> exists vs, evalt_list F s l = (L, Ok vs) /\ steps o acc vs = Some a.
+  Proof.
+    induction l as [|e l IH]; intros acc L a H; cbn [nfold_t] in H.
+    - inversion H; subst. exists []. split; reflexivity.
+    - cbn [evalt_list]. destruct (evalt F s e) as [r [x|u]]; [|discriminate].
+      destruct (nstep o acc x) as [acc'|] eqn:En; [|discriminate].
+      destruct (nfold_t o s acc' l) as [r2 res] eqn:Ef. inversion H; subst.
+      destruct (IH _ _ _ Ef) as (vs & E1 & E2). exists (x :: vs). rewrite E1. cbn. rewrite En. auto.
+  Qed.
+
+  Lemma nfold_of_list s o : forall l acc L vs a,
+    evalt_list F s l = (L, Ok vs) -> steps o acc vs = Some a -> nfold_t o s acc l = (L, Ok a).
+  Proof.
+    induction l as [|e l IH]; intros acc L vs a H Hs; cbn [evalt_list] in H.
+    - inversion H; subst. cbn in Hs. inversion Hs; subst. reflexivity.
+    - cbn [nfold_t]. destruct (evalt F s e) as [r [x|u]]; [|discriminate].
+      destruct (evalt_list F s l) as [r2 [vs2|u]] eqn:El; cbn in H; [|discriminate].
+      inversion H; subst. cbn [steps] in Hs. destruct (nstep o acc x) as [acc'|]; [|discriminate].
+      now rewrite (IH _ _ _ _ eq_refl Hs).
+  Qed.
+
+  (* what a strict node makes of the values of its children *)
+  Definition node_t (o : nop) (vs : list val) : list call * rs val :=
+    match steps o (ninit o) vs with
+    | Some acc => nfinish_t F o acc
+    | None => ([], Err false)
+    end.
+
+  Lemma evalt_strict_ok s o l L v :
+    is_lazy o = false -> evalt F s (ENary o l) = (L, Ok v) ->
+    exists Ll vs Lk, evalt_list F s l = (Ll, Ok vs) /\ node_t o vs = (Lk, Ok v) /\ L = Ll ++ Lk.
+  Proof.
+    intros Ho H. rewrite (evalt_nary s o l Ho) in H.
+    destruct (nfold_t o s (ninit o) l) as [r [acc|u]] eqn:Ef; [|discriminate].
+    destruct (nfinish_t F o acc) as [r2 v2] eqn:En. inversion H; subst.
+    destruct (nfold_ok _ _ _ _ _ _ Ef) as (vs & E1 & E2).
+    exists r, vs, r2. unfold node_t. rewrite E2, En. auto.
+  Qed.
+
+  Lemma evalt_strict_list s o l Ll vs Lk v :
+    is_lazy o = false -> evalt_list F s l = (Ll, Ok vs) -> node_t o vs = (Lk, Ok v) ->
+    evalt F s (ENary o l) = (Ll ++ Lk, Ok v).
+  Proof.
+    intros Ho El Hn. rewrite (evalt_nary s o l Ho). unfold node_t in Hn.
+    destruct (steps o (ninit o) vs) as [acc|] eqn:Es; [|discriminate].
+    rewrite (nfold_of_list s o l _ _ _ _ El Es). now rewrite Hn.
+  Qed.
+
+  Lemma steps_call f kw : forall vs acc, steps (NCall f kw) (NL acc) vs = Some (NL (rev vs ++ acc)).
+  Proof.
+    induction vs as [|v vs IH]; intros acc; [reflexivity|]. cbn [steps nstep]. rewrite IH.
+    cbn [rev]. now rewrite <- app_assoc.
+  Qed.
+
+  Lemma node_t_call f kw vs : node_t (NCall f kw) vs = call1t F f kw vs.
+  Proof.
+    unfold node_t. cbn [ninit]. rewrite steps_call, app_nil_r. cbn [nfinish_t]. now rewrite rev_involutive.
   Qed.
 
   (* frame *)
+  Lemma nfold_frame o l : forall s s' acc,
+    Forall (fun e => evalt F s e = evalt F s' e) l -> nfold_t o s acc l = nfold_t o s' acc l.
+  Proof.
+    induction l as [|e l IH]; intros s s' acc H; [reflexivity|]. inversion H as [|? ? He Hl]; subst.
+    cbn [nfold_t]. rewrite He. destruct (evalt F s' e) as [r [x|u]]; [|reflexivity].
+    destruct (nstep o acc x); [|reflexivity]. now rewrite (IH s s' _ Hl).
+  Qed.
+
+  Lemma nfold_map o (g : expr -> expr) l : forall s s' acc,
+    Forall (fun e => evalt F s' (g e) = evalt F s e) l -> nfold_t o s' acc (map g l) = nfold_t o s acc l.
+  Proof.
+    induction l as [|e l IH]; intros s s' acc H; [reflexivity|]. inversion H as [|? ? He Hl]; subst.
+    cbn [map nfold_t]. rewrite He. destruct (evalt F s e) as [r [x|u]]; [|reflexivity].
+    destruct (nstep o acc x); [|reflexivity]. now rewrite (IH s s' _ Hl).
+  Qed.
+
   Lemma evalt_frame e : forall s s', (forall x, In x (vars e) -> s x = s' x) -> evalt F s e = evalt F s' e.
   Proof.
     induction e as [z|b| |x|a IHa|c t e IHc IHt IHe|o a b IHa IHb|o l IH] using expr_ind';
@@ -211,16 +310,17 @@ Section Evalt.
     - cbn [evalt]. cbn [vars] in H.
       rewrite (IHa s s'), (IHb s s'); [reflexivity| |]; intros x Hx; apply H; rewrite in_app_iff; auto.
     - cbn [vars] in H.
-      assert (Hl : evalt_list F s l = evalt_list F s' l).
-      { clear o. induction IH as [|a l Ha _ IHl]; [reflexivity|]. cbn [evalt_list].
-        rewrite (Ha s s'), IHl; [reflexivity| |]; intros x Hx; apply H; cbn; rewrite in_app_iff; auto. }
+      assert (Hall : Forall (fun e => evalt F s e = evalt F s' e) l).
+      { clear o. induction IH as [|a l Ha _ IHl]; constructor.
+        - apply Ha. intros x Hx. apply H. cbn. rewrite in_app_iff. auto.
+        - apply IHl. intros x Hx. apply H. cbn. rewrite in_app_iff. auto. }
       destruct (is_lazy o) eqn:Ho.
       + destruct o; try discriminate.
-        * clear Hl. induction IH as [|a l Ha _ IHl]; [reflexivity|]. rewrite !evalt_and_cons.
-          rewrite (Ha s s'), IHl; [reflexivity| |]; intros x Hx; apply H; cbn; rewrite in_app_iff; auto.
-        * clear Hl. induction IH as [|a l Ha _ IHl]; [reflexivity|]. rewrite !evalt_or_cons.
-          rewrite (Ha s s'), IHl; [reflexivity| |]; intros x Hx; apply H; cbn; rewrite in_app_iff; auto.
-      + rewrite !evalt_strict by exact Ho. now rewrite Hl.
+        * clear IH H. induction Hall as [|a l Ha _ IHl]; [reflexivity|]. rewrite !evalt_and_cons.
+          now rewrite Ha, IHl.
+        * clear IH H. induction Hall as [|a l Ha _ IHl]; [reflexivity|]. rewrite !evalt_or_cons.
+          now rewrite Ha, IHl.
+      + rewrite !evalt_nary by exact Ho. now rewrite (nfold_frame o l s s' _ Hall).
   Qed.
 
   Lemma evalt_list_frame l : forall s s',
@@ -234,10 +334,24 @@ Section Evalt.
   Lemma cond_t_frame c s s' : (forall x, In x (vars c) -> s x = s' x) -> cond_t F s c = cond_t F s' c.
   Proof. intros H. unfold cond_t. now rewrite (evalt_frame c s s' H). Qed.
 
-  Lemma bound_t_frame c s s' : (forall x, In x (vars c) -> s x = s' x) -> bound_t F s c = bound_t F s' c.
-  Proof. intros H. unfold bound_t. now rewrite (evalt_frame c s s' H). Qed.
+  Lemma bounds_t_frame lo hi s s' :
+    (forall x, In x (vars lo ++ vars hi) -> s x = s' x) -> bounds_t F s lo hi = bounds_t F s' lo hi.
+  Proof.
+    intros H. unfold bounds_t.
+    rewrite (evalt_frame lo s s'), (evalt_frame hi s s'); [reflexivity| |];
+      intros x Hx; apply H; rewrite in_app_iff; auto.
+  Qed.
 
   (* a call-free expression makes no calls *)
+  Lemma nfold_nocall o s l : forall acc,
+    Forall (fun e => fst (evalt F s e) = []) l -> fst (nfold_t o s acc l) = [].
+  Proof.
+    induction l as [|e l IH]; intros acc H; [reflexivity|]. inversion H as [|? ? He Hl]; subst.
+    cbn [nfold_t]. destruct (evalt F s e) as [r [x|u]]; cbn in He; subst r; [|reflexivity].
+    destruct (nstep o acc x) as [acc'|]; [|reflexivity].
+    specialize (IH acc' Hl). destruct (nfold_t o s acc' l). exact IH.
+  Qed.
+
   Lemma nocall_log e : has_call e = false -> forall s, fst (evalt F s e) = [].
   Proof.
     induction e as [z|b| |x|a IHa|c t e IHc IHt IHe|o a b IHa IHb|o l IH] using expr_ind';
@@ -261,25 +375,21 @@ Section Evalt.
            destruct (has_call x) eqn:E; [|reflexivity];
            assert (existsb has_call l = true) by (apply existsb_exists; eauto); congruence). }
       destruct Hc as [Hl Hn].
-      assert (Hlist : fst (evalt_list F s l) = []).
-      { clear H Hn. induction IH as [|a l Ha _ IHl]; [reflexivity|]. cbn [forallb] in Hl.
-        apply andb_true_iff in Hl. destruct Hl as [H1 H2]. apply negb_true_iff in H1.
-        cbn [evalt_list]. specialize (Ha H1 s). destruct (evalt F s a) as [r v]. cbn in Ha. subst r.
-        destruct v as [x|u]; [|reflexivity]. specialize (IHl H2). destruct (evalt_list F s l). exact IHl. }
+      assert (Hall : Forall (fun e => fst (evalt F s e) = []) l).
+      { clear H Hn. induction IH as [|a l Ha _ IHl]; [constructor|]. cbn [forallb] in Hl.
+        apply andb_true_iff in Hl. destruct Hl as [H1 H2]. apply negb_true_iff in H1. constructor; auto. }
       destruct (is_lazy o) eqn:Ho.
       + destruct o; try discriminate.
-        * clear Hlist H Hn. induction IH as [|a l Ha _ IHl]; [reflexivity|]. cbn [forallb] in Hl.
-          apply andb_true_iff in Hl. destruct Hl as [H1 H2]. apply negb_true_iff in H1.
-          rewrite evalt_and_cons. specialize (Ha H1 s). destruct (evalt F s a) as [r v]. cbn in Ha. subst r.
+        * clear H Hn IH Hl. induction Hall as [|a l Ha _ IHl]; [reflexivity|].
+          rewrite evalt_and_cons. destruct (evalt F s a) as [r v]. cbn in Ha. subst r.
           destruct (rbind v _) as [[|]|u]; try reflexivity.
-          specialize (IHl H2). destruct (evalt F s (ENary NAnd l)). exact IHl.
-        * clear Hlist H Hn. induction IH as [|a l Ha _ IHl]; [reflexivity|]. cbn [forallb] in Hl.
-          apply andb_true_iff in Hl. destruct Hl as [H1 H2]. apply negb_true_iff in H1.
-          rewrite evalt_or_cons. specialize (Ha H1 s). destruct (evalt F s a) as [r v]. cbn in Ha. subst r.
+          destruct (evalt F s (ENary NAnd l)). exact IHl.
+        * clear H Hn IH Hl. induction Hall as [|a l Ha _ IHl]; [reflexivity|].
+          rewrite evalt_or_cons. destruct (evalt F s a) as [r v]. cbn in Ha. subst r.
           destruct (rbind v _) as [[|]|u]; try reflexivity.
-          specialize (IHl H2). destruct (evalt F s (ENary NOr l)). exact IHl.
-      + rewrite evalt_strict by exact Ho. destruct (evalt_list F s l) as [r [vs|u]]; cbn in Hlist; subst r;
-          [|reflexivity].
+          destruct (evalt F s (ENary NOr l)). exact IHl.
+      + rewrite evalt_nary by exact Ho. pose proof (nfold_nocall o s l (ninit o) Hall) as Hf.
+        destruct (nfold_t o s (ninit o) l) as [r [acc|u]]; cbn in Hf; subst r; [|reflexivity].
         destruct o; try discriminate; reflexivity.
   Qed.
 
